@@ -34,3 +34,5 @@ def run(ctx):
     ctx.run("C13.PROGRESS", "R-PROGRESS", zf.progress)
     ctx.run("C13.CURSOR", "R-DUAL", zf.cursor)
     ctx.run("C13.POS", "R-ORDER", zf.pos)
+    ctx.run("C14.EOF-NOT-DATA", "R-ORDER", zf.eof_not_data)
+    ctx.run("C13.MODE-TYPESTATE", "R-WHO", zf.mode_typestate)
